@@ -11,8 +11,11 @@ def mOpen : Str := [0xE2, 0x80, 0xB9]
 def mClose : Str := [0xE2, 0x80, 0xBA]
 def mRedacted : Str := [0xE2, 0x80, 0xB9, 0xC3, 0x97, 0xE2, 0x80, 0xBA]   -- ‹×›
 
+/-- `u x` is a plain byte like `b x`, with a ghost label: it was written from an UNSAFE source
+    (a format argument, the text of a foreign error, ...).  `lex` never produces it and `unlex`
+    ignores the label; the label only serves the theorems (C03: labelled bytes stay inside markers). -/
 inductive Tok
-  | op | cl | b (x : UInt8)
+  | op | cl | b (x : UInt8) | u (x : UInt8)
   deriving DecidableEq, Repr, Inhabited
 
 def lex : Str → List Tok
@@ -26,11 +29,13 @@ def unlex : List Tok → Str
   | .op :: r => mOpen ++ unlex r
   | .cl :: r => mClose ++ unlex r
   | .b x :: r => x :: unlex r
+  | .u x :: r => x :: unlex r
 
 /-- `RedactableString.StripMarkers` : delete every marker rune. -/
 def stripToks : List Tok → Str
   | [] => []
   | .b x :: r => x :: stripToks r
+  | .u x :: r => x :: stripToks r
   | _ :: r => stripToks r
 
 def stripMarkers (s : Str) : Str := stripToks (lex s)
@@ -38,6 +43,7 @@ def stripMarkers (s : Str) : Str := stripToks (lex s)
 /-- Length of the longest marker-free prefix, and what follows. -/
 def spanBytes : List Tok → List UInt8 × List Tok
   | .b x :: r => let (a, t) := spanBytes r; (x :: a, t)
+  | .u x :: r => let (a, t) := spanBytes r; (x :: a, t)
   | t => ([], t)
 
 theorem spanBytes_len (t : List Tok) : (spanBytes t).2.length ≤ t.length := by
@@ -58,6 +64,7 @@ def redactToks (t : List Tok) : Str :=
     | _ => mOpen ++ redactToks r
   | .cl :: r => mClose ++ redactToks r
   | .b x :: r => x :: redactToks r
+  | .u x :: r => x :: redactToks r
 termination_by t.length
 
 def redactS (s : Str) : Str := redactToks (lex s)
@@ -66,10 +73,11 @@ def redactS (s : Str) : Str := redactToks (lex s)
 def escToks : List Tok → Str
   | [] => []
   | .b x :: r => x :: escToks r
+  | .u x :: r => x :: escToks r
   | _ :: r => 63 :: escToks r
 
 def escapeMarkers (s : Str) : Str := escToks (lex s)
 
-def markerFree (s : Str) : Bool := (lex s).all (fun t => match t with | .b _ => true | _ => false)
+def markerFree (s : Str) : Bool := (lex s).all (fun t => match t with | .b _ => true | .u _ => true | _ => false)
 
 end ErrModel
